@@ -29,7 +29,14 @@ from . import common
 from .common import cN, cbool, cstr, clist, copt, cnat
 
 THEOREMS = [
+    "no_external_io",
+    "oracle_independent",
     "entry_points_flags_off",
+    "suds_no_external_io",
+    "no_external_content",
+    "marker_never_in_tree",
+    "fuel_monotone",
+    "feature_on_reaches_outside",
 ]
 
 MARK = "~"
@@ -403,6 +410,9 @@ class Rec(object):
     events = []      # (event name, argument summary, slot)
     parsers = []     # (ges, pes, default_resolver, class name)
     raw_parsers = 0
+    made = 0
+    total_made = 0
+    total_parses = 0
     main = None
     installed = False
     allowed_dirs = ()
@@ -464,6 +474,22 @@ def install_instrumentation():
         return orig_parse(self, source)
     er.ExpatParser.parse = parse
 
+    import xml.sax
+    orig_make = xml.sax.make_parser
+
+    def make_parser(*a, **k):
+        p = orig_make(*a, **k)
+        if Rec.enabled:
+            Rec.made += 1
+        return p
+    xml.sax.make_parser = make_parser
+    try:
+        import suds.sax.parser as sp
+        if getattr(sp, "make_parser", None) is orig_make:
+            sp.make_parser = make_parser      # the name suds bound at import time
+    except Exception:   # noqa
+        pass
+
     from xml.parsers import expat
     orig_create = expat.ParserCreate
 
@@ -486,6 +512,7 @@ class audited(object):
         Rec.events = []
         Rec.parsers = []
         Rec.raw_parsers = 0
+        Rec.made = 0
         Rec.allowed_dirs = self.allowed
         WORLD.hits[:] = []
         Rec.enabled = True
@@ -497,6 +524,9 @@ class audited(object):
         self.events = list(Rec.events)
         self.parsers = list(Rec.parsers)
         self.raw = Rec.raw_parsers
+        self.made = Rec.made
+        Rec.total_made += Rec.made
+        Rec.total_parses += len(Rec.parsers)
         self.hits = list(WORLD.hits)
         return False
 
@@ -907,6 +937,7 @@ def _finish(o, ctx):
     o.parsers = ctx.parsers
     o.hits = ctx.hits
     o.raw = ctx.raw
+    o.made = ctx.made
     return o
 
 
@@ -1299,6 +1330,7 @@ def _run(ck, suds, proof_ok):
     # ---- 4. WSDL + imported XSD (+ imported WSDL) through Client(...) -------
     n_load = 400 if thorough else 90
     load_requests_bad = []
+    n_named_fetches = 0
     for k in range(n_load):
         via = "store" if k % 2 == 0 else "transport"
         pre = "suds://c20/" if via == "store" else "http://c20.invalid/"
@@ -1319,19 +1351,26 @@ def _run(ck, suds, proof_ok):
         w2 = mk_doc(s3, wsdl2_body(t3), ext=e3)
         docs = {root_url: (wsdl, render_doc(wsdl, sysid_of)), imp_url: (xsd, render_doc(xsd, sysid_of)),
                 w2_url: (w2, render_doc(w2, sysid_of))}
+        named = [root_url, imp_url] + ([w2_url] if k % 3 == 1 else [])
         outs, requested, err, cap = run_client_load(suds, docs, root_url, via)
         for o in outs:
             o.label = "client-load/" + via
             outcomes.append(o)
-        # only_named_fetches: the transport was asked for named documents only
-        bad = [u for u in requested if u not in docs]
+        # only_named_fetches: the transport / store was asked for exactly the documents named by the caller
+        # and by import references (all of them when the load succeeds), never for a DOCTYPE identifier
+        fetched = requested if via == "transport" else cap.loaded
+        bad = [u for u in fetched if u not in named]
+        if err is None and via == "transport" and set(requested) != set(named):
+            bad = bad or ["expected %r, requested %r" % (named, requested)]
         if bad:
             load_requests_bad.append((bad, docs[root_url][1]))
+        n_named_fetches += len(fetched)
         ck.count("client-load-" + ("ok" if err is None else "raised"))
         if os.environ.get("C20_DEBUG") and err is not None:
             sys.stderr.write("client-load raised: %s\n" % err[:200])
 
     ck.extra["transport_requests_outside_named_documents"] = len(load_requests_bad)
+    ck.extra["named_document_fetches_observed"] = n_named_fetches
 
     # ---- evaluate ------------------------------------------------------------
     cases = []
@@ -1362,6 +1401,8 @@ def _run(ck, suds, proof_ok):
         ck.sample({"entry": o.entry, "document": o.data.decode("utf-8")[:400], "outcome": o.kind,
                    "tree": repr(o.flat)[:300], "live_external_ges": o.live, "events": o.events[:4]})
 
+    ck.extra["sax_parsers_created_via_make_parser"] = Rec.total_made
+    ck.extra["sax_parses_observed"] = Rec.total_parses
     pre = PRE_HEAD + "\n" + q_planted()
     res = ck.run_cases("docs", pre, "case", cases, ["c20_flags_agree", "c20_agrees", "c20_spec_ok"], shard=150)
 
@@ -1392,6 +1433,16 @@ def _run(ck, suds, proof_ok):
                          "loading a WSDL asked the transport for %r, which no import/include names" % (bad,),
                          {"entry": "client-load", "document": data.decode("utf-8"), "requested": bad})
 
+    # A parser with the feature ON but a non-default EntityResolver is outside the model (what the resolver
+    # returns is arbitrary code): such parses are judged by their observed effects only.
+    opaque = set(i for i, o in enumerate(outcomes)
+                 if any(p and p[0] and p[2] is False for p in o.parsers))
+    ck.extra["parses_with_feature_on_and_custom_resolver"] = len(opaque)
+    if opaque:
+        ck.notes.append("%d parse(s) used a reader with external-general-entities ON and a custom EntityResolver: "
+                        "the model does not apply to them, verdict by audited effects only" % len(opaque))
+        for pr in ("c20_flags_agree", "c20_agrees"):
+            res[pr] = [i for i in res[pr] if i not in opaque]
     unobserved = [o for o in outcomes if o.live is None]
     ck.extra["parses_without_observed_sax_parser"] = len(unobserved)
     flags_bad = [i for i in res["c20_flags_agree"]]
